@@ -151,7 +151,9 @@ def cem_sample(
         * jnp.sqrt(constrained_var)[jnp.newaxis]
         + mean[jnp.newaxis]
     )
-    return samples
+    # float32 rounding can push a sample (and, through the elites, the mean of
+    # the following iterations) a few ulp beyond a bound far from zero
+    return jnp.clip(samples, lb, ub)
 
 
 def cem_update(
